@@ -19,6 +19,7 @@ import LinVerif.Generated.C04
 import LinVerif.Lemmas.C04Arith
 import LinVerif.Lemmas.C04Down
 import LinVerif.Lemmas.C04Once
+import LinVerif.Lemmas.C04Calendar
 import Mathlib.Data.List.Count
 
 set_option linter.unusedSimpArgs false
@@ -226,6 +227,109 @@ theorem slot_placement_year (c : Cal) (D h s src tgt : Nat) (hc : c.OkAt D) (hh 
     have := hc.next
     unfold oneDay
     omega
+
+/-- month-type source (`5m ≤ src < 1h`; family = day `f` of the month that starts at day number `M`,
+source slots inside the day), year-type target — e.g. intervals `[5m, 1h]`. Guard: the same with the
+source family length `1d`: `src ∣ tgt`, `tgt ∣ 1d ∨ 1d ∣ tgt`, `tgt/src < 65536`. -/
+theorem slot_placement_month_to_year (c : Cal) (M : Int) (f s src tgt : Nat) (hf : 1 ≤ f)
+    (hc : c.OkAt (M + ((f : Int) - 1))) (hM : c.monthStart (M + ((f : Int) - 1)) = M)
+    (hst : itype (src : Int) = .month) (htt : itype (tgt : Int) = .year)
+    (g : Guard src tgt 86400000) (hs : s * src < 86400000) :
+    let r := mkR c src tgt (M * oneDay) f
+    let l := locate c src tgt (M * oneDay) f
+    let ts := r.getTimestamp s
+    r.baseSlot + (s : Int) / r.intervalRatio = r.calcSlot ts
+    ∧ l.tFamStart + r.calcSlot ts * tgt ≤ ts ∧ ts < l.tFamStart + (r.calcSlot ts + 1) * tgt
+    ∧ calcSegmentTime c (itype tgt) ts = l.tSegTime
+    ∧ calcFamily c (itype tgt) ts l.tSegTime = l.tFamily
+    ∧ l.tFamStart ≤ ts ∧ ts ≤ calcFamilyEndTime c (itype tgt) l.tFamStart := by
+  have hloc := locate_month_to_year c src tgt M f hc hM hst htt
+  obtain ⟨k, hk⟩ : ∃ k : Nat, (f : Int) - 1 = k := ⟨f - 1, by omega⟩
+  have hk32 : k < 32 := by have := hc.span; rw [hM] at this; omega
+  have htgt36 : 3600000 ≤ tgt := by have := (itype_year_iff tgt).1 htt; omega
+  have htgt : 0 < tgt := by omega
+  set o : Nat := k * 86400000 with ho
+  have hF : (86400000 : Nat) ∣ o := ⟨k, by omega⟩
+  have hb : (o + s * src) / tgt < 65536 := by
+    have h1 : (o + s * src) / tgt ≤ (o + s * src) / 3600000 := Nat.div_le_div_left htgt36 (by norm_num)
+    omega
+  have hp := place_year (M * oneDay) o s src tgt 86400000 g htt hF hs hb
+  have hw := slot_window (o + s * src) tgt htgt
+  intro r l ts
+  have hr : r = ⟨src, tgt, M * oneDay + ((o : Nat) : Int), M * oneDay⟩ := by
+    simp only [r, mkR, hloc]
+    congr 1
+    simp only [ho, oneDay]
+    push_cast
+    omega
+  have hl : l = _ := hloc
+  have hts : ts = M * oneDay + ((o + s * src : Nat) : Int) := by
+    simp only [ts, hr, R.getTimestamp]; push_cast; ring
+  have hts' : ts = (M + ((f : Int) - 1)) * oneDay + ((s * src : Nat) : Int) := by
+    rw [hts]; simp only [ho, oneDay]; push_cast; omega
+  have hcs : r.calcSlot ts = (((o + s * src) / tgt : Nat) : Int) := by
+    simp only [ts]; rw [hr]; exact hp.2
+  have hdn : dayNo ts = M + ((f : Int) - 1) := by
+    rw [hts']; apply dayNo_in_day <;> omega
+  refine ⟨?_, ?_, ?_, ?_, ?_, ?_, ?_⟩
+  · simp only [ts]; rw [hr]; exact hp.1
+  · rw [hcs, hl, hts]
+    have h' : ((tgt * ((o + s * src) / tgt) : Nat) : Int) ≤ ((o + s * src : Nat) : Int) := Int.ofNat_le.2 hw.1
+    push_cast at h' ⊢
+    linarith
+  · rw [hcs, hl, hts]
+    have h' : ((o + s * src : Nat) : Int) < ((tgt * ((o + s * src) / tgt + 1) : Nat) : Int) := Int.ofNat_lt.2 hw.2
+    push_cast at h' ⊢
+    linarith
+  · rw [htt, hl]; simp only [calcSegmentTime, hdn]
+  · rw [htt, hl]; simp only [calcFamily, hdn]
+  · rw [hl]; dsimp only; omega
+  · rw [htt, hl, hts']
+    simp only [calcFamilyEndTime, dayNo_mul]
+    have := hc.next
+    rw [hM] at this
+    unfold oneDay
+    omega
+
+/-! ### the same for the real (proleptic Gregorian, UTC) calendar: no calendar hypothesis
+
+`stdCal` is built from C13's Model/Calendar.lean; `stdCal_okAt` (Lemmas/C04Calendar.lean) proves the
+five facts of `Cal.OkAt` for every day from C13's `civil_spec` / `civil_of_days` / `month_step`. -/
+
+/-- the conclusion of the placement theorems -/
+def PlacedRight (c : Cal) (src tgt seg fTime : Int) (s : Nat) : Prop :=
+  let r := mkR c src tgt seg fTime
+  let l := locate c src tgt seg fTime
+  let ts := r.getTimestamp s
+  r.baseSlot + (s : Int) / r.intervalRatio = r.calcSlot ts
+  ∧ l.tFamStart + r.calcSlot ts * tgt ≤ ts ∧ ts < l.tFamStart + (r.calcSlot ts + 1) * tgt
+  ∧ calcSegmentTime c (itype tgt) ts = l.tSegTime
+  ∧ calcFamily c (itype tgt) ts l.tSegTime = l.tFamily
+  ∧ l.tFamStart ≤ ts ∧ ts ≤ calcFamilyEndTime c (itype tgt) l.tFamStart
+
+theorem slot_placement_month_greg (D h s src tgt : Nat) (hh : h < 24)
+    (hst : itype (src : Int) = .day) (htt : itype (tgt : Int) = .month)
+    (g : Guard src tgt 3600000) (hs : s * src < 3600000) :
+    PlacedRight stdCal src tgt ((D : Int) * oneDay) h s :=
+  slot_placement_month stdCal D h s src tgt (stdCal_okAt D) hh hst htt g hs
+
+theorem slot_placement_year_greg (D h s src tgt : Nat) (hh : h < 24)
+    (hst : itype (src : Int) = .day) (htt : itype (tgt : Int) = .year)
+    (g : Guard src tgt 3600000) (hs : s * src < 3600000) :
+    PlacedRight stdCal src tgt ((D : Int) * oneDay) h s :=
+  slot_placement_year stdCal D h s src tgt (stdCal_okAt D) hh hst htt g hs
+
+/-- month `y-m` (`1 ≤ m ≤ 12`), day `f` of that month (`daysFromCivil y m f` lies before the next
+month's first day), source slot `s` inside the day -/
+theorem slot_placement_month_to_year_greg (y m : Int) (f s src tgt : Nat) (hm1 : 1 ≤ m) (hm2 : m ≤ 12)
+    (hf : 1 ≤ f)
+    (hin : LinVerif.Calendar.daysFromCivil y m f <
+      LinVerif.Calendar.daysFromCivil (LinVerif.Calendar.nextMonth y m).1 (LinVerif.Calendar.nextMonth y m).2 1)
+    (hst : itype (src : Int) = .month) (htt : itype (tgt : Int) = .year)
+    (g : Guard src tgt 86400000) (hs : s * src < 86400000) :
+    PlacedRight stdCal src tgt (LinVerif.Calendar.daysFromCivil y m 1 * oneDay) f s :=
+  slot_placement_month_to_year stdCal (LinVerif.Calendar.daysFromCivil y m 1) f s src tgt hf
+    (stdCal_okAt _) (stdCal_monthStart_of y m f hm1 hm2 (by omega) hin) hst htt g hs
 
 /-! ## the aggregate in every target slot -/
 
